@@ -7,9 +7,9 @@ ids = [p["id"] for p in props]
 
 # per property: (technique, level text, level note, design ref)
 CLAIMED = {
- "C09": ("Coq proof (uniformity of the bridge-shuffle sampler over the enumerated orders, count = number of orders, soundness of the enumeration) + exact-enumeration correspondence model vs implementation",
-         "Theorems over all trees/forests: the sampler model is exactly the uniform law on forders F, fcount F = |forders F|, every enumerated order is a permutation respecting the ancestor constraint; the model is tied to the code by comparing, for every tree over <= 4 points (all outlier subsets) and random larger ones, the exact outcome distribution of RootPermutationDistribution.sample (all shuffles enumerated), log_pdf and a brute-force enumeration with the model evaluated by vm_compute.",
-         "Urn model of rng.shuffle on sentinels is a modelling step (validated exhaustively on the enumerated trees); completeness of forders w.r.t. the compatibility predicate validated by brute force, not yet proved; numpy semantics trusted.",
+ "C09": ("Coq proof (the bridge-shuffle sampler draws every compatible order with probability exactly 1/count and nothing else; enumeration sound, complete and duplicate-free; count = number of orders) + exact-enumeration correspondence model vs implementation",
+         "Theorems over all trees/forests with distinct data points: every permutation of the data points that places each clone's points after its descendants' (outliers anywhere) is drawn with probability exactly 1/fcount, every other list with probability 0, fcount = number of such orders, total mass 1. Tie: for every tree over <= 4 points (all outlier subsets) and random larger ones, the exact outcome distribution of RootPermutationDistribution.sample (all shuffles enumerated), log_pdf and a brute-force enumeration are compared with the model evaluated by vm_compute.",
+         "Urn model of rng.shuffle on sentinels is a modelling step (validated exhaustively on the enumerated trees); numpy semantics trusted.",
          "DESIGN.md section 6 C09"),
  "C01": ("Coq proof (conditional SMC with adaptive multinomial resampling leaves the path target invariant, for every proposal, particle count, schedule and symmetric resampling criterion; auxiliary-variable lemma for the data order; i-SIR) + exact transition matrices of the real particle-Gibbs update (every random outcome enumerated) checked for pi P = pi + vm_compute correspondence of the Coq sampler model with the real ConditionalSMCSampler",
          "Theorem C01_csmc_invariant (induction over the schedule via exchangeability of the unconditional sampler, a change of measure and slot averaging; closed under the global context) plus C01_aux_variable_invariant for the random data order. The implementation is decided by computing, for every start tree over 1-2 (thorough: 3) data points, the EXACT outcome distribution of ParticleGibbsTreeSampler.sample_tree under both wirings (run.py and library), all three proposals, outliers on/off, alpha/particles/threshold grids, and testing max|pi P - pi| <= 1e-9 against exp(log_p_one); the Coq model of the sampler, fed with proposal/weight tables read off the real kernel, reproduces the real sampler's outcome distribution row by row for fixed data orders.",
